@@ -88,12 +88,24 @@ def validateEndStates (g : GNFA σ α) (start : σ) (paths : List (σ × Option 
    else guardE (g.rowComplete paths) (.lib .missingStateError)).andThen <|
   firstErr (akeys paths) fun q => guardE (decide (q ∈ g.states)) (.lib .invalidStateError)
 
-/-- `GNFA.validate`. -/
+/-- `paths.get(self.initial_state) is not None`: a labelled transition into the initial state. -/
+def entersInit (g : GNFA σ α) (paths : List (σ × Option (GLabel α))) : Bool :=
+  match alookup g.init paths with
+  | some (some _) => true
+  | _ => false
+
+/-- `GNFA.validate` (with the checks added by fix 084dfed: final ≠ initial, a row for every
+non-final state, no labelled transition into the initial state). -/
 def validate (g : GNFA σ α) : Res Unit :=
   (guardE (decide (g.init ∈ g.states)) (.lib .invalidStateError)).andThen <|
   (guardE (decide (g.final ∈ g.states)) (.lib .invalidStateError)).andThen <|
+  (guardE (decide (g.init ≠ g.final)) (.lib .invalidStateError)).andThen <|
+  (firstErr g.states fun q =>
+    guardE (decide (q = g.final) || ahas q g.trans) (.lib .missingStateError)).andThen <|
   (firstErr g.trans fun kv =>
-    (firstErr (avals kv.2) g.validateLabel).andThen (g.validateEndStates kv.1 kv.2)).andThen <|
+    (firstErr (avals kv.2) g.validateLabel).andThen <|
+    (g.validateEndStates kv.1 kv.2).andThen <|
+    guardE (!g.entersInit kv.2) (.lib .invalidStateError)).andThen <|
   guardE (ahas g.init g.trans || decide (g.states.length ≤ 1)) (.lib .missingStateError)
 
 end GNFA
